@@ -228,7 +228,7 @@ PROPS = {
                  "schemas (1..3 tables, indexes, isRoot) and the 12 error kinds through the latter. Non-trivial: the value is not a bare atom."),
         "tags": {1: "the implementation's encoding differs from the model's", 2: "decoding the implementation's encoding: model and implementation differ",
                  3: "the decoded value differs from the original", 11: "operation: encoding", 12: "operation: decoding", 13: "operation: decoded value differs from the original",
-                 21: "message: encoding", 22: "message: decoding", 23: "message: decoded value differs from the original"},
+                 21: "message: encoding", 22: "message: decoding", 23: "message: decoded value differs from the original", 24: "monitor select: what the accessors answer differs from the model's kinds"},
         "assumptions": ["numbers in rows are float64 values as encoding/json produces them (integers within +-2^53); integer bounds of schemas are exact up to the ends of int64"],
     },
     "C09": {
